@@ -49,8 +49,20 @@ fn api_identity(out: &mut Out, rng: &mut Rng, k: u64) {
         if a.public_key() != b.public_key() || a.srv_value() != b.srv_value() {
             out.violation("C10 identity not-deterministic", "two constructions from one seed differ", desc.clone());
         }
-        // certificates for fresh online keys, both protocols
+        // one online key certified for both protocols, in both orders, repeatedly: every
+        // certificate must carry a signature under its own protocol's context
         let mut lt = a;
+        for order in [[Version::Google, Version::RfcDraft13, Version::Google], [Version::RfcDraft13, Version::Google, Version::RfcDraft13]] {
+            let ok = OnlineKey::new();
+            for ver in order {
+                let p = if ver == Version::Google { Proto::Classic } else { Proto::Ietf };
+                let cert = lt.make_cert(&ver, &ok).encode().unwrap();
+                out.obs("api_certs_checked", 1);
+                out.obs("api_certs_same_online_key_both_protocols", 1);
+                check_cert(out, &cert, &want_pk, p, None, "api-same-online-key", &desc);
+            }
+        }
+        // certificates for fresh online keys, both protocols
         for (ver, p) in [(Version::Google, Proto::Classic), (Version::RfcDraft13, Proto::Ietf)] {
             for _ in 0..2 {
                 let ok = OnlineKey::new();
